@@ -290,7 +290,7 @@ pub fn exec(plan: &CrashPlan) -> RunOut {
     let mut trace = Vec::new();
     let mut ri = 0i64;
     for op in &plan.ops {
-        let is_req = ops::concretise(plan.seed, &w.model, plan.n_clients, op).is_some();
+        let is_req = ops::concretise(plan.seed, &w.model, plan.n_clients, op).is_some() || (matches!(op, Op::Resend) && w.last_upload.is_some());
         if let Op::Create { c } = op {
             if w.model.client(&ops::client_id(plan.seed, *c)).is_some() {
                 continue;
